@@ -150,6 +150,12 @@ func c14CraftedPool() []c14Op {
 		{Query: "{ ...Q } fragment Q on Query { thing { ...F } } fragment F on B { label }", Kind: "query", Note: "type condition of a fragment spread INSIDE another fragment"},
 		{Query: "{ things { ...O } } fragment O on I { ...F } fragment F on A { label }", Kind: "query", Note: "type condition of a fragment spread INSIDE another fragment"},
 		{Query: "{ things { ...O } } fragment O on I { ...F } fragment F on B { label }", Kind: "query", Note: "type condition of a fragment spread INSIDE another fragment"},
+		{Query: "{ things { ... on I { ...F } } } fragment F on A { label }", Kind: "query", Note: "type condition of a fragment spread INSIDE an inline fragment"},
+		{Query: "{ things { ... on I { ...F } } } fragment F on B { label }", Kind: "query", Note: "type condition of a fragment spread INSIDE an inline fragment"},
+		{Query: "{ thing { ... { ...F } } } fragment F on A { label }", Kind: "query", Note: "type condition of a fragment spread INSIDE an untyped inline fragment"},
+		{Query: "{ thing { ... { ...F } } } fragment F on B { label }", Kind: "query", Note: "type condition of a fragment spread INSIDE an untyped inline fragment"},
+		{Query: "{ things { ... on I { ... on I { ...F } } } } fragment F on A { label }", Kind: "query", Note: "type condition of a fragment spread INSIDE nested inline fragments"},
+		{Query: "{ things { ... on I { ... on I { ...F } } } } fragment F on B { label }", Kind: "query", Note: "type condition of a fragment spread INSIDE nested inline fragments"},
 		{Query: "{ thing { ... on A { label } } }", Kind: "query", Note: "inline fragment condition"},
 		{Query: "{ thing { ... on B { label } } }", Kind: "query", Note: "inline fragment condition"},
 		{Query: "{ items { ...F } } fragment F on A { label }", Kind: "query", Note: "fragment body"},
